@@ -70,7 +70,7 @@ def run(check: Check) -> None:
     )
     check.info["rule"] = "configuration = (term family, intercept, ensure_full_rank, output); distinct = distinct (formula, options)"
     check.bounds.update({"rows": "7 (crossed), 1, 3 (B with one level)", "terms_per_formula": "<=3 (+ hierarchical f*g / f*g*h families of 3 / 7 terms)", "factors_per_term": "<=3", "levels": "A:3, B:2",
-                         "literal_scalings": ["2.5", "3"], "outputs": ["pandas", "numpy"], "index_kinds": ["default", "permuted integers", "strings", "non-unique"]})
+                         "literal_scalings": ["2.5", "3"], "outputs": ["pandas", "numpy"], "index_kinds": ["default", "permuted integers", "strings", "non-unique", "RangeIndex with an offset", "RangeIndex with a step"]})
     check.out_of_scope += ["sparse output, numeric data as DataFrame columns (Series branch of the encoders) and the narwhals materializer are NOT solver-decided: scipy/narwhals cannot hold symbolic cells; the same oracle is run natively at one generic point per configuration (group matrix.other_branches/ground)",
                            "contrasts other than treatment / sum / helmert (C11)", "more than 3 terms / 3 factors per term"]
     cases = []
@@ -98,7 +98,7 @@ def _case(check: Check, case, record=False):
     layout = {0: "one-row", 1: "one-level-B"}.get(zlib.crc32(("L" + ident).encode()) % 6, "crossed7")
     n = len(mc.LAYOUTS[layout][0])
     # the index of the data frame is part of "all data": a stable function of the configuration picks one of four kinds
-    index = ["default", "permuted", "string", "nonunique"][zlib.crc32(ident.encode()) % 4]
+    index = ["default", "permuted", "string", "nonunique", "range-offset", "range-step"][zlib.crc32(ident.encode()) % 6]
     df = mc.layout_frame(layout, index=index)
     if True:
         def fn(formula=formula, efr=efr, out=out):
